@@ -89,6 +89,7 @@ type scope struct {
 
 	bucketCache *bucketCache
 	closed      atomic.Bool
+	closeMu     sync.Mutex
 	done        chan struct{}
 	wg          sync.WaitGroup
 	root        bool
@@ -519,6 +520,10 @@ func (s *scope) Snapshot() Snapshot {
 }
 
 func (s *scope) Close() error {
+	if s.root {
+		return s.closeRoot()
+	}
+
 	// n.b. Once this flag is set, the next scope report will remove it from
 	//      the registry and clear its metrics.
 	if !s.closed.CAS(false, true) {
@@ -526,12 +531,29 @@ func (s *scope) Close() error {
 	}
 
 	close(s.done)
+	return nil
+}
 
-	if s.root {
-		s.reportRegistry()
-		if closer, ok := s.baseReporter.(io.Closer); ok {
-			return closer.Close()
-		}
+func (s *scope) closeRoot() error {
+	// n.b. Callers are serialized so that none of them returns before the
+	//      shutdown has completed.
+	s.closeMu.Lock()
+	defer s.closeMu.Unlock()
+
+	if s.closed.Load() {
+		return nil
+	}
+
+	// n.b. Stop the report loop and wait for a report that is in flight before
+	//      raising the flag: a report that ends while the flag is set purges the
+	//      registry, which only the final report below may do.
+	close(s.done)
+	s.wg.Wait()
+	s.closed.Store(true)
+
+	s.reportRegistry()
+	if closer, ok := s.baseReporter.(io.Closer); ok {
+		return closer.Close()
 	}
 
 	return nil
